@@ -8,6 +8,8 @@ R3.4  rename plumbing: structure fn reads Meta.key_transform_with_load, unstruct
       override(rename=...) for every field
 R3.6  field names are de-duplicated soundly (test / rename until unused / record): distinct wire keys never share one
       Python field, so the Meta maps are bijections                                          [pattern shared with C20]
+R3.7  sibling agreement: _resolve_one_of and _resolve_any_of (two copies of one routine) return the same results
+R3.8  nullability written as a type array is read from the document node at every sibling site (never from IRSchema.type, a string)
 R3.5  recursion over field types: every field of every dataclass gets its nested types registered (no skip)
 """
 from __future__ import annotations
@@ -16,7 +18,7 @@ import ast
 
 from rules import _converter as cv
 from sa.cfg import CFG
-from sa.model import full, AnalysisError, Repo, calls_in, dotted, norm, own_nodes
+from sa.model import full, AnalysisError, Repo, calls_in, const_str, dotted, norm, own_nodes
 from sa.match import Locals, match, names_in
 from sa.report import Report
 
@@ -104,3 +106,49 @@ def run(repo: Repo, rep: Report, tier: str) -> None:
         rep.ok("R3.2", sub, "key_transform_with_load and key_transform_with_dump are rendered from the same field_mappings pairs, swapped (mutually inverse by construction)", rd.loc())
     else:
         rep.violation("R3.2", sub, f"{rd.fq}|meta-maps|{orders}", f"the two Meta maps are not the swapped rendering of one mapping: {texts}", rd.loc())
+
+    # ---------------------------------------------------------------- R3.7 the two composition resolvers return the same things
+    from rules._siblings import return_signature
+
+    a = repo.func("types.resolvers.schema_resolver:OpenAPISchemaResolver._resolve_one_of")
+    b = repo.func("types.resolvers.schema_resolver:OpenAPISchemaResolver._resolve_any_of")
+    sa_, sb_ = return_signature(a, {"one_of": "X_of", "oneOf": "XOf"}), return_signature(b, {"any_of": "X_of", "anyOf": "XOf"})
+    sub = f"{a.module.relpath}:_resolve_one_of / _resolve_any_of return the same results"
+    if sa_ == sb_:
+        rep.ok("R3.7", sub, f"{len(sa_)} return expressions each, pairwise equal up to naming (optionality, forward-reference and import handling agree)", a.loc())
+    else:
+        only_a = [x for x in sa_ if x not in sb_]
+        only_b = [x for x in sb_ if x not in sa_]
+        rep.violation("R3.7", sub, f"{a.fq}|siblings-disagree|{len(only_a)}|{len(only_b)}",
+                      f"oneOf and anyOf are resolved by two copies of one routine, but they no longer return the same things (only oneOf: {only_a[:2]}; only anyOf: "
+                      f"{only_b[:2]}): e.g. the optionality of a single-variant composition is kept by one spelling and lost by the other", a.loc())
+
+    # ---------------------------------------------------------------- R3.8 type-array nullability is read from the document node
+    # `type: [string, "null"]` lives in the raw node; IRSchema.type is a plain string (ir.py), so a test `isinstance(<ir>.type, list)` can never
+    # hold and the property silently stops being nullable (None then fails to structure)
+    ir_cls = repo.module("ir").classes.get("IRSchema")
+    type_ann = ""
+    if ir_cls is not None:
+        for st in ir_cls.node.body:
+            if isinstance(st, ast.AnnAssign) and isinstance(st.target, ast.Name) and st.target.id == "type":
+                type_ann = norm(st.annotation)
+    rep.require(bool(type_ann), "R3.8: IRSchema.type annotation not found (anchor)")
+    sp = repo.module("core.parsing.schema_parser")
+    good = bad = 0
+    for fn in sp.functions.values():
+        for n in own_nodes(fn.node):
+            if isinstance(n, ast.Call) and dotted(n.func) == "isinstance" and len(n.args) == 2 and norm(n.args[1]) == "list":
+                a0 = n.args[0]
+                from_node = (isinstance(a0, ast.Call) and isinstance(a0.func, ast.Attribute) and a0.func.attr == "get" and a0.args and const_str(a0.args[0]) == "type") or (
+                    isinstance(a0, ast.Subscript) and const_str(a0.slice) == "type")
+                from_ir = isinstance(a0, ast.Attribute) and a0.attr == "type"
+                if from_node:
+                    good += 1
+                elif from_ir and "list" not in type_ann.lower():
+                    bad += 1
+                    rep.violation("R3.8", f"{sp.relpath}:{fn.qualname} nullable type array read from the IR", f"{fn.fq}|type-array-from-ir",
+                                  f"`{norm(n)}` can never be true (IRSchema.type: {type_ann}): a property declared `type: [T, \"null\"]` is no longer marked nullable "
+                                  "here, while the sibling branches read the raw node", fn.loc(n))
+    if good and not bad:
+        rep.ok("R3.8", f"{sp.relpath} nullable type arrays", f"all {good} `isinstance(<node>['type'], list)` tests read the document node", sp.relpath)
+    rep.require(good >= 3, f"R3.8: only {good} type-array nullability tests found in schema_parser (floor 3)")
